@@ -77,3 +77,41 @@ contract('InstantiatedDeclaration.__init__', params={'original': 'ref:ForwardDec
 INST_KEYS = ['InstantiatedStaticMethod.construct', 'InstantiatedConstructor.construct', 'InstantiatedGlobalFunction.__init__',
              'InstantiatedDeclaration.__init__', 'InstantiatedMethod.__init__', 'InstantiatedStaticMethod.__init__', 'InstantiatedConstructor.__init__',
              'InstantiatedMethod.construct']
+
+# ---- the instantiated class: name, pass-through parts, and the class invariants that Class.__init__ establishes.
+#      The member lists come from InstantiationHelper.multilevel_instantiation (class object stored in an attribute,
+#      itertools.product: out of the engine's reach) -- type-level contracts, assumed; the product order is a bounded clause.
+TN_LIST = 'list[str]'
+contract('InstantiatedClass.instantiate_parent_class', params={'typenames': TN_LIST}, returns='estr|ref:Typename',
+         modifies=['alloc'], assumed=True, note='type-level; the substituted base is checked by the bounded oracle (C02)')
+contract('InstantiatedClass.instantiate_ctors', params={'typenames': TN_LIST}, returns='list[ref:InstantiatedConstructor]', fresh=True,
+         modifies=['alloc'], ensures=['forall(0, len(result), lambda j: result[j].name == self.name)'], assumed=True,
+         note='multilevel_instantiation + InstantiatedConstructor.construct (proved: the constructor carries parent.name)')
+contract('InstantiatedClass.instantiate_static_methods', params={'typenames': TN_LIST}, returns='list[ref:InstantiatedStaticMethod]',
+         fresh=True, modifies=['alloc'], assumed=True, note='type-level')
+contract('InstantiatedClass.instantiate_methods', params={'typenames': TN_LIST}, returns='list[ref:InstantiatedMethod]',
+         fresh=True, modifies=['alloc'], assumed=True, note='type-level')
+contract('InstantiatedClass.instantiate_operators', params={'typenames': TN_LIST}, returns='list[ref:Operator]',
+         fresh=True, modifies=['alloc'], assumed=True, note='type-level')
+contract('InstantiatedClass.instantiate_properties', params={'typenames': TN_LIST}, returns='list[ref:Variable]',
+         fresh=True, modifies=['alloc'], assumed=True, note='type-level')
+CLS_NAME = "(old(original.name + iname_suffix(instantiations, len(instantiations))) if new_name == '' else new_name)"
+contract('InstantiatedClass.__init__', params={'original': 'ref:Class', 'instantiations': INSTS, 'new_name': 'str'}, returns='none',
+         requires=[PLAIN_I, 'not same(self, original)'],
+         raises={'AssertionError': 'template_arity(original.template) >= 0 and template_arity(original.template) != len(instantiations)'},
+         modifies=['self.original', 'self.instantiations', 'self.template', 'self.is_virtual', 'self.parent', 'self.name',
+                   'self.parent_class', 'self.ctors', 'self.static_methods', 'self.properties', 'self.operators', 'self.enums',
+                   'self.methods', 'self.dunder_methods', 'alloc',
+                   'heap:parent@Constructor', 'heap:parent@Method', 'heap:parent@StaticMethod', 'heap:parent@DunderMethod', 'heap:parent@Variable'],
+         ensures=['self.original == original', 'same(self.instantiations, instantiations)', 'self.template is None',
+                  'self.is_virtual == old(original.is_virtual)', 'self.parent == old(original.parent)',
+                  # named by appending the capitalised argument names (or by the typedef's name)
+                  'self.name == ' + CLS_NAME,
+                  'self.enums == old(original.enums)', 'self.dunder_methods == old(original.dunder_methods)',
+                  # a complete instantiation: one argument per template parameter
+                  'old(template_arity(original.template)) < 0 or old(template_arity(original.template)) == len(instantiations)',
+                  'forall(0, len(self.ctors), lambda j: self.ctors[j].name == self.name and self.ctors[j].parent == self)',
+                  'forall(0, len(self.methods), lambda j: self.methods[j].parent == self)',
+                  'forall(0, len(self.static_methods), lambda j: self.static_methods[j].parent == self)'])
+INST_KEYS += ['InstantiatedClass.__init__']
+
